@@ -418,17 +418,48 @@ func init() {
 // (a construction extracted verbatim into a helper is still found). Each function is visited once.
 func inspectWithHelpers(f *ast.File, fd *ast.FuncDecl, depth int, visit func(ast.Node) bool) {
 	seen := map[string]bool{}
+	// receiver variable and receiver type of a method ("" for a plain function)
+	recvOf := func(fd *ast.FuncDecl) (string, string) {
+		if fd.Recv == nil || len(fd.Recv.List) != 1 {
+			return "", ""
+		}
+		v := ""
+		if len(fd.Recv.List[0].Names) == 1 {
+			v = fd.Recv.List[0].Names[0].Name
+		}
+		switch t := fd.Recv.List[0].Type.(type) {
+		case *ast.StarExpr:
+			if id, ok := t.X.(*ast.Ident); ok {
+				return v, id.Name
+			}
+		case *ast.Ident:
+			return v, t.Name
+		}
+		return v, ""
+	}
 	var walk func(fd *ast.FuncDecl, depth int)
 	walk = func(fd *ast.FuncDecl, depth int) {
-		if fd == nil || fd.Body == nil || seen[fd.Name.Name] {
+		if fd == nil || fd.Body == nil {
 			return
 		}
-		seen[fd.Name.Name] = true
+		rv, rt := recvOf(fd)
+		if seen[rt+"."+fd.Name.Name] {
+			return
+		}
+		seen[rt+"."+fd.Name.Name] = true
 		ast.Inspect(fd.Body, func(n ast.Node) bool {
 			if ce, ok := n.(*ast.CallExpr); ok && depth > 0 {
-				if id, ok := ce.Fun.(*ast.Ident); ok {
-					if h := funcDecl(f, "", id.Name); h != nil {
+				switch fn := ce.Fun.(type) {
+				case *ast.Ident:
+					if h := funcDecl(f, "", fn.Name); h != nil {
 						walk(h, depth-1)
+					}
+				case *ast.SelectorExpr:
+					// a method of the same receiver called on the receiver variable: `f.fillMissing(tm)`
+					if x, ok := fn.X.(*ast.Ident); ok && rv != "" && x.Name == rv && rt != "" {
+						if h := funcDecl(f, rt, fn.Sel.Name); h != nil {
+							walk(h, depth-1)
+						}
 					}
 				}
 			}
